@@ -931,11 +931,11 @@ theorem declare_step {s : SeqState} {name : ChName} {chId : Nat} {init : Option 
       | (simp_all; done)
       | skip
   all_goals
-    obtain ⟨_, _, h3⟩ := store_ok' hok
+    obtain ⟨h1, _, h3⟩ := store_ok' hok
     first
       | (rw [h3.modeOf m]
          exact addChannel_modeOf s _ (freshChan_mode _ _ _ _ _ _ _) m)
-      | (rw [h3.modeOf m, (SameR_targetCore _ _ _).modeOf m]
+      | (rw [h3.modeOf m, Raw.orRollback_ok h1, (SameR_targetCore _ _ _).modeOf m]
          exact addChannel_modeOf s _ (freshChan_mode _ _ _ _ _ _ _) m)
 
 theorem configDetMap_step {s : SeqState} {dmmId : Nat} {w1 w2 : Rat}
